@@ -600,6 +600,10 @@ func (ex *explorer) process(in *Interp, p *pstate) (res procResult) {
 					Witness: p.witness() + inb + w, XState: m.StateString(p.x), YState: p.y.String()})
 				continue
 			}
+			if m.in.mirror && o.DigitUse && (b < '0' || b > '9') {
+				report(Disagreement{Kind: "digit-misuse", Mode: mode, Byte: byteDesc(b), Detail: "the byte is used as a decimal digit (b - '0', directly or through a Number method) although it is not one of '0'..'9': the accumulated number is not the number in the text",
+					Witness: p.witness() + inb, XState: m.StateString(p.x), YState: p.y.String()})
+			}
 			if m.in.mirror && mayBeBig(p.y.S) && inNumber(ys.Next.S) && !o.Mirrored && !bigBufEmptyDecided(o.Decisions) {
 				report(Disagreement{Kind: "big-unmirrored", Mode: mode, Byte: byteDesc(b), Detail: "inside a number this byte is neither added to the number's text buffer (BigBuf) nor handled on a path that tested the buffer to be empty: when the number is being kept as text (too many digits for the accumulators) the byte is lost from the value",
 					Witness: p.witness() + inb, XState: m.StateString(p.x), YState: p.y.String()})
@@ -701,6 +705,9 @@ func dedupeOutcomes(m *Machine, outs []Outcome) []Outcome {
 		}
 		if o.Mirrored {
 			sb.WriteString("|mir")
+		}
+		if o.DigitUse {
+			sb.WriteString("|dig")
 		}
 		if o.Peek != nil {
 			sb.WriteString("|peek")
